@@ -3,7 +3,7 @@
 IR (inside the hierarchy IR of hier_xml.py):
 
     hier["subset"] = {"name": "SUB", "simple": {short_name: default},
-                      "complex": {short_name: [[sub_short_name, default], ...]}}
+                      "complex": {short_name: [[sub_short_name, default] | {"name":..., "subs": [[sn, default],...]}, ...]}}
     layer["comparams"] = [ {"param": short_name, "protocol": None | protocol layer name,
                             "form": "VALUE" | "SIMPLE" | "COMPLEX",
                             "value": str | None | [str | None, ...], "uid": str}, ... ]
@@ -16,6 +16,10 @@ HierarchyElement._compute_available_commmunication_parameters):
   so closer layers and higher-priority parents override per key;
 * two parents of *equal* priority offering different instances for one key are ambiguous: either is
   accepted;
+* a PROT-STACK-SNREF of a COMPARAM-REF ("prot_stack") does not take part in the override key
+  ("overridden per parameter and protocol");
+* the entries of a COMPLEX-VALUE map positionally to the sub-parameters in document order, a nested
+  COMPLEX-COMPARAM occupying one slot (its value is a nested list);
 * ECU-SHARED-DATA layers carry no communication parameters;
 * lookup by name and protocol P: the instance qualified with P if one is effective, else the
   unqualified one, else none; lookup without protocol ("don't care"): any effective instance of that name;
@@ -56,6 +60,12 @@ SUB_NAMES = ["CP_CanPhysReqId", "CP_CanRespUSDTId", "CP_DoIPLogicalEcuAddress"]
 #   empty-subvalue  an empty SIMPLE-VALUE inside COMPLEX-VALUE is returned as "" instead of the sub-parameter default
 EMULATIONS = ["generic-first", "raw-value", "empty-subvalue"]
 RAW_ACCESSORS = ("get_can_baudrate", "get_can_fd_baudrate", "get_max_can_payload_size")
+
+
+def sub_names(subs: list) -> list:
+    """short names of the sub-parameters of a complex parameter in document order; an entry is
+    [short_name, default] (simple) or {"name": ..., "subs": [[short_name, default], ...]} (nested complex)"""
+    return [e["name"] if isinstance(e, dict) else e[0] for e in subs]
 
 
 def _conv(content, conv):
@@ -127,10 +137,11 @@ class CPModel:
     def subvalue(self, inst: dict, sub: str, emul=()):
         """content of a sub-value, None when the parameter has no such sub-parameter"""
         subs = self.subset["complex"][inst["param"]]
-        names = [s[0] for s in subs]
+        names = sub_names(subs)
         if sub not in names:
             return None
-        idx = names.index(sub)
+        idx = names.index(sub)     # positional mapping in document order (nested complex entries count as one slot)
+        assert not isinstance(subs[idx], dict), "only simple sub-parameters are looked up"
         v = inst["value"][idx]
         if v is None or v == "":
             return "" if "empty-subvalue" in emul else subs[idx][1]
@@ -139,7 +150,7 @@ class CPModel:
     def relies_on_default(self, inst: dict, sub=None) -> bool:
         if sub is None:
             return inst["value"] in (None, "")
-        names = [s[0] for s in self.subset["complex"][inst["param"]]]
+        names = sub_names(self.subset["complex"][inst["param"]])
         return sub in names and inst["value"][names.index(sub)] in (None, "")
 
     # ---- typed accessors: sets of acceptable outcomes ("ok", value) | ("exc", type name) ----------
